@@ -239,6 +239,27 @@ Eval vm_compute in map (fun c => let m := comp_assertions true (fst c) in
             a_old, _ = parse_assertions(old)
             if rc == 0 and a_old != asserts:
                 ck.violation("C06-forms-differ", "the #[test] form (no offset_of!) states different numbers than the const form", {"header": hdr[:2000]})
+        # ---- (d') the two assertion forms on packed / aligned / pragma-pack records (their numbers are C02's business; here only:
+        #      both forms must assert the same things)
+        for b in range(4 if quick else 40):
+            g = e2e.Gen(r, bitfields=False, attrs=True)
+            hdr = g.header(12)
+            p = os.path.join(tmp, "pk%d.h" % b)
+            open(p, "w").write(hdr)
+            rc1, new_, err = sh2([bindgen, p], timeout=120)
+            rc2, old, err = sh2([bindgen, p, "--rust-target", "1.76"], timeout=120)
+            ck.evaluations += 1
+            if rc1 != 0 or rc2 != 0:
+                continue
+            ck.nontrivial.add(hdr)
+            a_new, _ = parse_assertions(new_)
+            a_old, _ = parse_assertions(old)
+            if a_new != a_old:
+                diff = {t: {"const_form": a_new.get(t), "test_form": a_old.get(t)} for t in sorted(set(a_new) | set(a_old)) if a_new.get(t) != a_old.get(t)}
+                first = sorted(diff)[0]
+                rec = next((x for x in g.recs if x.name == first), None)
+                ck.violation("C06-forms-differ", "the #[test] form (no offset_of!) asserts different things than the const form",
+                             {"header": hdr[:3000], "type": rec.text() if rec else first, "difference": {first: diff[first]}, "flags": ["--rust-target", "1.76"]})
         # ---- cross targets (portable spellings only: no __int128, no `long` bit-fields wider than 32)
         xgens = []
         for b in range(2 if quick else 20):
